@@ -76,7 +76,7 @@ def run(chk):
     proved = chk.prove(timeout=1500)
     h, d = F.harness(), F.driver()
     corpus = F.corpus_docs()
-    nh = 1500 if quick else 60000
+    nh = 6000 if quick else 150000
     specs = {}
     lines = []
     for name, spec in REGRESSION:
